@@ -3,8 +3,8 @@
    consistency, refinement of the line-by-line model Defs.v to the abstract LRU cache of Spec.v), ProofsSpec.v
    (refinement of the abstract cache to the map specification m_step / m_fetch of Spec.v) and ProofsCor.v (the
    clauses of the property text over explicit histories). *)
-From CppcmsV Require Import Base.Tac C07.Defs C07.Spec C07.Util C07.ProofsInv C07.MapSpec C07.ProofsSpec C07.ProofsCor C07.Ifc C07.ProofsIfc C07.HashMap C07.ProofsHash C07.Link.
-From CppcmsV Require Import Base.CSem gen.Gen_C07_hash.
+From CppcmsV Require Import Base.Tac C07.Defs C07.Spec C07.Util C07.ProofsInv C07.MapSpec C07.ProofsSpec C07.ProofsCor C07.ProofsLim C07.Ifc C07.ProofsIfc C07.HashMap C07.ProofsHash C07.Link.
+From CppcmsV Require Import Base.CSem gen.Gen_C07_hash gen.Gen_C07_iface.
 Local Open Scope N_scope.
 
 (* 1. Mirror consistency (Inv, Spec.v): primary, triggers, timeout and lru describe the same entry set,
@@ -52,12 +52,23 @@ Theorem counts_determined : forall M st1 st2, counts M st1 -> counts M st2 -> st
 Proof. exact counts_unique. Qed.
 Print Assumptions counts_determined.
 
-(* 4. refines_spec_limited (DESIGN theorem 3, soundness half): for every limit, every memory-pressure pattern and every
-      allocator fault except a store that fails before it touches the cache (FDropBefore: the real store() returns
-      silently and the old entry stays - see docs/C07.md), every fetch answer is a miss or equals the specification
+(* 3b. refines_spec_within_limit (DESIGN theorem 3, completeness half): the same exact agreement for a LIMITED cache
+      whose limit is at least the number of distinct keys the history stores under (K: any duplicate-free list that
+      contains them): check_limits never finds anything to evict, every live entry is found, stats are exact. *)
+Theorem refines_spec_within_limit : forall ops now lim K,
+  NoDup K -> incl (store_keys ops) K -> N.of_nat (length K) <= lim -> Forall op_no_fault ops ->
+  Forall2 ans_exact (snd (run now ops (init lim))) (m_trace now ops m_init).
+Proof. exact run_exact_within_limit. Qed.
+Print Assumptions refines_spec_within_limit.
+
+(* 4. refines_spec_limited (DESIGN theorem 3, soundness half): for every operation sequence, every limit, every
+      memory-pressure pattern and every allocator fault, every fetch answer is a miss or equals the specification
       answer, and the entries counted by stats are bindings of the specification map: eviction can lose entries,
-      nothing can make the cache return or keep anything but the latest store. *)
-Theorem refines_spec_limited : forall ops now lim, Forall op_no_drop_before ops ->
+      nothing can make the cache return or keep anything but the latest store.  In the specification (m_store, Spec.v) a
+      store that cannot be carried out - the value cannot be copied (FDropBefore: the catch block of mem_cache::store calls
+      remove(key)), the size test fires, the allocator fails while linking - leaves the key unbound (the whole map, for
+      FClear): the superseded entry is not a binding any more. *)
+Theorem refines_spec_limited : forall ops now lim,
   Forall2 ans_sound (snd (run now ops (init lim))) (m_trace now ops m_init).
 Proof. exact run_sound. Qed.
 Print Assumptions refines_spec_limited.
@@ -66,14 +77,12 @@ Print Assumptions refines_spec_limited.
       clock now hist = value of the clock after hist; stores_key k o = o is a store under k;
       invalidates k ts o = o is a store under k, remove k, clear, or rise t with t in ts. *)
 Theorem fetch_hit_is_latest_store : forall lim now pre k v tin d g f nem mid,
-  Forall op_no_drop_before (pre ++ Store k v tin d g f nem :: mid) ->
   forallb (fun o => negb (stores_key k o)) mid = true ->
   let r := last_out (snd (run now ((pre ++ Store k v tin d g f nem :: mid) ++ [Fetch k]) (init lim))) in
   r = OMiss \/ exists g', (forall x, g = Some x -> g' = x) /\ r = OHit v (store_trigs k tin) d g'.
 Proof. exact fetch_hit_is_latest_store_l. Qed.
 Print Assumptions fetch_hit_is_latest_store.
 Theorem fetch_miss_after_invalidation : forall lim now pre k v tin d g f nem mid0 inv mid,
-  Forall op_no_drop_before ((pre ++ Store k v tin d g f nem :: mid0) ++ inv :: mid) ->
   forallb (fun o => negb (stores_key k o)) mid0 = true ->
   invalidates k (store_trigs k tin) inv = true -> stores_key k inv = false ->
   forallb (fun o => negb (stores_key k o)) mid = true ->
@@ -81,24 +90,28 @@ Theorem fetch_miss_after_invalidation : forall lim now pre k v tin d g f nem mid
 Proof. exact fetch_miss_after_invalidation_l. Qed.
 Print Assumptions fetch_miss_after_invalidation.
 Theorem fetch_miss_after_remove_or_clear : forall lim now pre k inv mid,
-  Forall op_no_drop_before (pre ++ inv :: mid) ->
   invalidates_any k inv = true ->
   forallb (fun o => negb (stores_key k o)) mid = true ->
   last_out (snd (run now ((pre ++ inv :: mid) ++ [Fetch k]) (init lim))) = OMiss.
 Proof. exact fetch_miss_after_remove_or_clear_l. Qed.
 Print Assumptions fetch_miss_after_remove_or_clear.
 Theorem fetch_miss_after_deadline : forall lim now pre k v tin d g f nem mid,
-  Forall op_no_drop_before (pre ++ Store k v tin d g f nem :: mid) ->
   forallb (fun o => negb (stores_key k o)) mid = true ->
   (d < clock now (pre ++ Store k v tin d g f nem :: mid))%Z ->
   last_out (snd (run now ((pre ++ Store k v tin d g f nem :: mid) ++ [Fetch k]) (init lim))) = OMiss.
 Proof. exact fetch_miss_after_deadline_l. Qed.
 Print Assumptions fetch_miss_after_deadline.
 Theorem fetch_miss_never_stored : forall lim now hist k,
-  Forall op_no_drop_before hist -> forallb (fun o => negb (stores_key k o)) hist = true ->
+  forallb (fun o => negb (stores_key k o)) hist = true ->
   last_out (snd (run now (hist ++ [Fetch k]) (init lim))) = OMiss.
 Proof. exact fetch_miss_never_stored_l. Qed.
 Print Assumptions fetch_miss_never_stored.
+Theorem fetch_miss_after_failed_store : forall lim now pre k v tin d g f nem mid,
+  f <> FNone ->
+  forallb (fun o => negb (stores_key k o)) mid = true ->
+  last_out (snd (run now ((pre ++ Store k v tin d g f nem :: mid) ++ [Fetch k]) (init lim))) = OMiss.
+Proof. exact fetch_miss_after_failed_store_l. Qed.
+Print Assumptions fetch_miss_after_failed_store.
 Theorem live_entry_found : forall now pre k v tin d g mid,
   Forall op_no_fault (pre ++ Store k v tin d g FNone [] :: mid) ->
   forallb (fun o => negb (invalidates k (store_trigs k tin) o)) mid = true ->
@@ -107,6 +120,15 @@ Theorem live_entry_found : forall now pre k v tin d g mid,
     last_out (snd (run now ((pre ++ Store k v tin d g FNone [] :: mid) ++ [Fetch k]) (init 0))) = OHit v (store_trigs k tin) d g'.
 Proof. exact live_entry_found_l. Qed.
 Print Assumptions live_entry_found.
+Theorem live_entry_found_within_limit : forall now lim K pre k v tin d g mid,
+  NoDup K -> incl (store_keys (pre ++ Store k v tin d g FNone [] :: mid)) K -> N.of_nat (length K) <= lim ->
+  Forall op_no_fault (pre ++ Store k v tin d g FNone [] :: mid) ->
+  forallb (fun o => negb (invalidates k (store_trigs k tin) o)) mid = true ->
+  (clock now (pre ++ Store k v tin d g FNone [] :: mid) <= d)%Z ->
+  exists g', (forall x, g = Some x -> g' = x) /\
+    last_out (snd (run now ((pre ++ Store k v tin d g FNone [] :: mid) ++ [Fetch k]) (init lim))) = OHit v (store_trigs k tin) d g'.
+Proof. exact live_entry_found_within_limit_l. Qed.
+Print Assumptions live_entry_found_within_limit.
 Theorem rise_kills_exactly : forall t s, Inv s -> forall k,
   pfind k (primary (rise t s)) =
   match pfind k (primary s) with Some c => if kmem t (c_trigs c) then None else Some c | None => None end.
@@ -119,13 +141,29 @@ Print Assumptions rise_kills_exactly.
 Example spec_nonvacuous :
   let st := Store [98] [2] [[97]] 9 None FNone [] in
   let hist := ([Store [97] [1] [] 9 None FNone []] ++ st :: [Tick 3]) ++ Rise [97] :: [Fetch [97]] in
-  Forall op_no_drop_before hist /\ invalidates [98] (store_trigs [98] [[97]]) (Rise [97]) = true /\
+  invalidates [98] (store_trigs [98] [[97]]) (Rise [97]) = true /\
   last_out (snd (run 0 (hist ++ [Fetch [98]]) (init 0))) = OMiss /\
   last_out (snd (run 0 (([Store [97] [1] [] 9 None FNone []] ++ st :: [Tick 9]) ++ [Fetch [98]]) (init 0))) = OHit [2] [[98]; [97]] 9 1 /\
   last_out (snd (run 0 (([Store [97] [1] [] 9 None FNone []] ++ st :: [Tick 10]) ++ [Fetch [98]]) (init 0))) = OMiss /\
   last_out (snd (run 0 (([Store [97] [1] [] 9 None FNone []] ++ st :: [Tick 9]) ++ [Fetch [97]]) (init 1))) = OMiss /\
   m_fetch 9 [97] (fst (snd (m_run 0 ([Store [97] [1] [] 9 None FNone []] ++ st :: [Tick 9]) m_init))) = OHit [1] [[97]] 9 0.
-Proof. vm_compute. repeat split; try reflexivity. repeat constructor. Qed.
+Proof. vm_compute. repeat split; reflexivity. Qed.
+
+(* non-vacuity of 3b: two keys, limit 2: re-stores and fetches never evict (both entries found, stats 2/..); with limit 1
+   the hypothesis fails and so does the conclusion (a was evicted by the store of b) *)
+Example within_limit_nonvacuous :
+  let sa := Store [97] [1] [] 9 None FNone [] in let sb := Store [98] [2] [[97]] 9 None FNone [] in
+  let ops := [sa; sb; sa; Fetch [98]; Fetch [97]] in
+  NoDup [[97]; [98]] /\ incl (store_keys ops) [[97]; [98]] /\ Forall op_no_fault ops /\
+  map fst (snd (run 0 ops (init 2))) = [ONone; ONone; ONone; OHit [2] [[98]; [97]] 9 1; OHit [1] [[97]] 9 2] /\
+  map snd (snd (run 0 ops (init 2))) = [(1, 1); (2, 3); (2, 3); (2, 3); (2, 3)] /\
+  map fst (snd (run 0 ops (init 1))) = [ONone; ONone; ONone; OMiss; OHit [1] [[97]] 9 2].
+Proof.
+  vm_compute. repeat split; try reflexivity.
+  - repeat constructor; cbn; intuition discriminate.
+  - intros x Hx. cbn in *. tauto.
+  - repeat constructor.
+Qed.
 
 (* 6. interface_triggers (DESIGN theorem 4): cache_interface and triggers_recorder (model: Ifc.v).
       i_added now o st = the names handed to add_trigger while o runs (store: its triggers and its key unless notriggers;
@@ -137,7 +175,10 @@ Proof. vm_compute. repeat split; try reflexivity. repeat constructor. Qed.
    c. the page trigger set holds every name added since the last reset;
    d. a page stored by store_page is gone (fetch_page misses) after raising any name recorded while it was built, any name
       that was already in the page set, or the page key - in particular a trigger inherited from a cached frame it fetched;
-   e. the same for a frame stored through the interface and its own triggers. *)
+   e. the same for a frame stored through the interface and its own triggers;
+   f. a frame whose value cannot be copied into the shared segment (IStoreFail: the back end removes the key) misses at the
+      next fetch whatever was cached under its key before; being an ordinary operation of the model it is covered by a-d
+      (its triggers are recorded, the run is a run of the cache back end). *)
 Theorem interface_runs_are_cache_runs : forall ops now st,
   fst (fst (i_run now ops st)) = fst (fst (run now (i_project now ops st) (i_cache st))) /\
   i_cache (snd (fst (i_run now ops st))) = snd (fst (run now (i_project now ops st) (i_cache st))) /\
@@ -174,6 +215,22 @@ Theorem frame_invalidated_by_trigger : forall now st k v trigs secs notr t notr2
 Proof. exact frame_invalidated_by_trigger_l. Qed.
 Print Assumptions frame_invalidated_by_trigger.
 
+Theorem failed_frame_store_misses : forall now st k trigs secs notr notr2,
+  Inv (i_cache st) ->
+  let st2 := snd (fst (i_step now (IStoreFail k trigs secs notr) st)) in
+  snd (i_step now (IFetch k notr2) st2) = IMiss.
+Proof. exact failed_frame_store_misses_l. Qed.
+Print Assumptions failed_frame_store_misses.
+
+(* g. tie: the deadline the interface hands to the back end.  infty and deadtime() as translated from the current
+      src/cache_interface.cpp (the value read from time() is the second argument) equal the model's. *)
+Theorem source_infty_is_model : g_c07_infty = infty.
+Proof. exact link_infty. Qed.
+Print Assumptions source_infty_is_model.
+Theorem source_deadtime_is_model : forall now sec, g_c07_deadtime sec now = deadtime now sec.
+Proof. exact link_deadtime. Qed.
+Print Assumptions source_deadtime_is_model.
+
 (* non-vacuity: a frame f with trigger t is cached; building a page: an outer recorder is attached, the frame is fetched
    (inheriting f and t), an inner recorder sees only the explicit trigger u; the page p is stored and found; raising the
    inherited trigger t makes fetch_page miss *)
@@ -187,20 +244,31 @@ Example interface_nonvacuous :
   i_page (snd (fst (i_run 0 ([IStore f [1] [t] 10 true] ++ build) (i_init 0)))) = [u; t; f].
 Proof. vm_compute. repeat split. Qed.
 
-(* 7. the excluded case is a real counterexample, not a proof artefact: when the copy of the new value fails (FDropBefore:
-      std::bad_alloc in the first try block of mem_cache::store, reachable with the process_shared back end for a value that
-      does not fit into the shared segment) store() returns without deleting the old entry, and the next fetch returns the
-      SUPERSEDED value.  Replayed on the implementation (known finding stale-after-failed-store, docs/C07.md). *)
-Theorem fetch_hit_is_latest_store_without_hypothesis_refuted :
-  exists lim now pre k v tin d g nem mid,
-    forallb (fun o => negb (stores_key k o)) mid = true /\
-    let r := last_out (snd (run now ((pre ++ Store k v tin d g FDropBefore nem :: mid) ++ [Fetch k]) (init lim))) in
-    ~ (r = OMiss \/ exists g', (forall x, g = Some x -> g' = x) /\ r = OHit v (store_trigs k tin) d g').
-Proof.
-  exists 0, 0%Z, [Store [97] [1] [] 9%Z None FNone []], [97], [2], [], 9%Z, None, [], [].
-  split; [reflexivity|]. vm_compute. intros [H|(g' & _ & H)]; discriminate.
-Qed.
-Print Assumptions fetch_hit_is_latest_store_without_hypothesis_refuted.
+(* a cached frame, then a store of the same frame that cannot be carried out inside a recorder: the recorder still gets the
+   frame key and its trigger, the old value is gone, stats drop to 0/0 *)
+Example interface_failed_store_nonvacuous :
+  let f := [102] in let t := [116] in
+  snd (i_run 0 [IStore f [1] [t] 10 true; IFetch f true; IAttach; IStoreFail f [t] 10 false; IDetach; IFetch f true] (i_init 0)) =
+    [(INone, (1, 2)); (IHit [1], (1, 2)); (INone, (1, 2)); (INone, (0, 0)); (IRec [f; t], (0, 0)); (IMiss, (0, 0))].
+Proof. vm_compute. reflexivity. Qed.
+
+(* 7. regression: the history that used to be the counterexample of the hit clause (a was cached, then a store under a
+      whose value cannot be copied into the shared segment - FDropBefore: std::bad_alloc in the first try block of
+      mem_cache::store).  Before /repo commit 6978548 store() returned without touching the cache and the fetch served the
+      SUPERSEDED value [1]; the catch block now calls remove(key), the faithful model deletes the entry, the fetch misses
+      and the key stays absent (stats 0/0) until the next store that goes through.  Same history: corpus/C07/regression.case. *)
+Example failed_store_regression :
+  let old := Store [97] [1] [] 9%Z None FNone [] in
+  let bad := Store [97] [2] [] 9%Z None FDropBefore [] in
+  last_out (snd (run 0 (([old] ++ bad :: []) ++ [Fetch [97]]) (init 0))) = OMiss /\
+  snd (run 0 [old; Fetch [97]; bad; Fetch [97]; Tick 1; Fetch [97]; Store [97] [3] [] 9%Z None FNone []; Fetch [97]] (init 0)) =
+    [(ONone, (1, 1)); (OHit [1] [[97]] 9 0, (1, 1)); (ONone, (0, 0)); (OMiss, (0, 0)); (ONone, (0, 0)); (OMiss, (0, 0));
+     (ONone, (1, 1)); (OHit [3] [[97]] 9 1, (1, 1))] /\
+  (* the premises of fetch_miss_after_failed_store hold for it *)
+  FDropBefore <> FNone /\ forallb (fun o => negb (stores_key [97] o)) [Tick 1] = true /\
+  (* and the specification map has the key unbound after the failed store *)
+  fst (snd (m_run 0 [old; bad] m_init)) [97] = None.
+Proof. vm_compute. repeat split; try reflexivity. discriminate. Qed.
 
 (* 8. private/hash_map.h (the container behind mem_cache::primary and mem_cache::triggers, which Defs.v treats as a finite
       map): the model HashMap.v of basic_map - one intrusive list, per-bucket (first,last) ranges, rehash that relinks every
